@@ -206,17 +206,26 @@ def parse_recs(f):
 
 
 def ref_multi(f):
-    """expected answer of an M case: the INIT record whose (non-empty, in-range) interval covers the lookup address,
-    with ITS delta records (the generator keeps the intervals disjoint, so there is at most one)"""
+    """expected answers of an M case -> (set of acceptable answers, exact?)
+    A record has a range when its size is not 0 and its end fits u64.  The record used for a lookup address is one whose
+    range covers it.  When the covering record overlaps no other record of the file the answer is fixed (its walk, with
+    ITS delta records); for overlapping INIT records (malformed input, the documentation is silent on which one is
+    kept) the answer must still be the walk of SOME covering record, or N."""
     w, lookup = int(f[1]), int(f[2])
     callee = parse_regs(f[3])
     mem = mem_reader(w, int(f[4]), bytes.fromhex(f[5]) if f[5] != "-" else b"")
-    hits = [r for r in parse_recs(f) if r[1] != 0 and r[0] + r[1] <= U64 and r[0] <= lookup <= r[0] + r[1] - 1]
+    recs = [r for r in parse_recs(f) if r[1] != 0 and r[0] + r[1] <= U64]
+    hits = [r for r in recs if r[0] <= lookup <= r[0] + r[1] - 1]
     if not hits:
-        return "N"
-    assert len(hits) == 1, "generator produced overlapping INIT records"
-    ia, isz, init, deltas = hits[0]
-    return ref_mock_core(w, lookup, callee, mem, ia, isz, init, deltas)
+        return {"N"}
+    walks = {ref_mock_core(w, lookup, callee, mem, ia, isz, init, deltas) for (ia, isz, init, deltas) in hits}
+    if len(hits) == 1:
+        h = hits[0]
+        others = list(recs)
+        others.remove(h)        # one occurrence: an identical duplicate is an "other" (same walk, harmless)
+        if all(o[0] + o[1] <= h[0] or h[0] + h[1] <= o[0] or o == h for o in others):
+            return walks
+    return walks | {"N"}
 
 
 def ref_real(f):
@@ -284,7 +293,7 @@ def ref_real(f):
 class C06(PropBase):
     pid = "C06"
     coq_dirs = ["Base", "Gen", "C06"]
-    translators = ["c06_cfi_ops.py", "unwind_consts.py"]
+    translators = ["c06_cfi_ops.py", "unwind_consts.py", "c08_tables.py"]
     bins = ["c06"]
     rule = ("case = one STACK CFI INIT record + delta records, a lookup address, callee registers and a memory image, walked "
             "(A) by SymbolFile::walk_frame with a mock FrameWalker (M: several INIT records with disjoint ranges in one file) or (B) by one walk_stack step through the real "
@@ -497,6 +506,35 @@ class C06(PropBase):
             cases.append("|".join(f))
             dist["by_kind"]["M"] = dist["by_kind"].get("M", 0) + 1
             dist["multi_record"] = dist.get("multi_record", 0) + 1
+        # overlapping / duplicate / nested INIT records, records whose end leaves u64 next to ordinary ones: the record
+        # table of the parser (into_rangemap_safe keeps the first of two overlapping records in (start, end) order and
+        # drops the other AS A WHOLE) is inside the model (C06/FileTable.v over C08's generated tables)
+        no = 1200 if tier == "quick" else 10000
+        for _ in range(no):
+            nrec = rng.range(2, 5)
+            start = rng.choice([0, 16, 100, 18446744073709551500])
+            recs, bounds = [], []
+            for _k in range(nrec):
+                ia = start + rng.choice([0, 0, 4, 8, 12, 16, 24, 40])
+                size = rng.choice([0, 1, 4, 8, 16, 32, 64, 200])
+                if recs and rng.chance(1, 6):
+                    ia, size = recs[-1][0], recs[-1][1]          # same range as the previous record
+                init = rng.choice(inits)
+                deltas = [(min(U64, ia + rng.choice([0, 1, 7, size])), rng.choice(dpool)) for _d in range(rng.range(0, 2))]
+                if recs and rng.chance(1, 10):
+                    ia, size, init, deltas = recs[-1]            # an identical duplicate
+                recs.append((ia, size, init, deltas))
+                bounds += [ia - 1 if ia > 0 else 0, ia, ia + size - 1 if size else ia, ia + size]
+            lookup = rng.choice(bounds + [start + rng.below(72)])
+            if lookup > U64:
+                lookup = U64
+            (w, regs, mb, mh) = rng.choice(self.ENVS[:2])
+            f = ["M", str(w), str(lookup), regs, str(mb), mh]
+            for (ia, size, init, deltas) in recs:
+                f.append(";".join([str(ia), str(size), init] + [x for (a, t) in deltas for x in (str(a), t)]))
+            cases.append("|".join(f))
+            dist["by_kind"]["M"] = dist["by_kind"].get("M", 0) + 1
+            dist["overlapping_records"] = dist.get("overlapping_records", 0) + 1
         # front-end (b): the real CfiStackWalker
         SP = 0x80000000
         stack = bytes(range(1, 65)).hex()
@@ -596,8 +634,8 @@ class C06(PropBase):
             return None
         if f[0] == "M":
             want = ref_multi(f)
-            if ans != want:
-                return "walk_frame result (several INIT records) differs from the documented semantics: got %s, documented %s" % (ans[:300], want[:300])
+            if ans not in want:
+                return "walk_frame result (several INIT records) differs from the documented semantics: got %s, documented %s" % (ans[:300], " or ".join(sorted(want))[:300])
             return None
         if f[0] == "A":
             want = ref_mock(f)
